@@ -655,7 +655,41 @@ class ReadLines(Contract):
                 ('C01:stops-only-when-readline-returns-nothing', And(g['rl_calls'] >= 1, eq(g['rl_last'], '')))]
 
 
+class Iter(Contract):
+    """iter(child): the lines of the stream - `iter(self.readline, <empty string of the object's own type>)`, i.e.
+    exactly what successive readline() calls return (under contract above), ending at the first empty result, which
+    readline gives only at EOF. A sentinel of the other string type would never compare equal: the loop would not end."""
+    name = SB + '.__iter__'
+    props = ('C01', 'C04')
+    standin = False
+
+    def shape(self, b):
+        kind = b.choice('mode', ['b', 's'])
+        sp = b.obj('self', SB, sealed=False, encoding=b.none() if kind == 'b' else b.const('utf-8'),
+                   string_type=b.cls('bytes' if kind == 'b' else 'str'))
+        return dict(self=sp)
+
+    def exits(self, v):
+        return ()
+
+    def ensures(self, v):
+        from pyvc.values import VObj, VFunc, VStr
+        r = v.result_v
+        h = v.ctx.heap[r.oid] if isinstance(r, VObj) else None
+        is_it = h is not None and h.kind == 'calliter'
+        out = [('C01:iterates-by-calling-something-until-a-sentinel', is_it)]
+        if is_it:
+            fn, sent = h.fields['fn'], h.fields['sentinel']
+            out += [('C01:each-item-is-one-readline-of-this-object',
+                     isinstance(fn, VFunc) and fn.kind == 'method' and fn.fi.qual.endswith('.readline')
+                     and isinstance(fn.self, VObj) and fn.self.oid == v.args_v['self'].oid),
+                    ('C04:ends-at-the-empty-string-of-the-objects-own-type',
+                     isinstance(sent, VStr) and sent.kind == ('b' if v.old.self.encoding is None else 's') and eq(sent.t, ''))]
+        return out
+
+
 def register(reg):
+    reg.add(Iter)
     reg.add(ReadLineOracle)
     reg.add(ReadLines)
     for c in (ReadLine, Read):
